@@ -92,6 +92,8 @@ def run_case(case):
     # reduced hash sizes: decoys are generated collision-free under the truncated hash (gen_decoy), arrays whose own
     # blocks collide are trivial (recorded_hashes)
     hs = rng.choice([16, 16, 8, 4, 2]) if idx % 4 != 3 else rng.choice([16, 8, 4, 2, 2])
+    if idx % 8 == 3 and rng.random() < 0.6:
+        hs = 2  # import mode under the ASan build: the shortest hash the import tables have to cope with
     if idx % 8 == 7 and rng.random() < 0.8:
         hs = 16  # the pending-import-decoy mode mostly runs with full hashes (past hashes are only meaningful there)
     cfg = scen.gen_config(rng, max_lev=2, force=dict(nd=rng.randint(2, 4), hashsize=hs), allow_splits=False)
